@@ -210,17 +210,22 @@ func newSys(t *rt.Trace, wof []int, ckFail func() bool) *sys {
 	return y
 }
 
-// fatal reports a harness failure with the replay position and all goroutine stacks.
+// stuck is how a replay gives up on ONE scheduler instance: a wait missed its deadline (an expected execution or
+// checkpoint never showed up, an API call or the clock did not return, the scheduler never became quiescent).
+// It is not a verdict and it is not thrown away either: the lane stops, everything recorded so far is still
+// validated - if the specification rejects something the code did before getting stuck, that is the finding; if
+// not, the check reports itself broken with this message (exit 2).
+type stuck string
+
+// fatal abandons the scheduler under test (which may be blocked for good, possibly with its lock held).
 func (y *sys) fatal(format string, a ...any) {
-	buf := make([]byte, 1<<16)
-	n := runtime.Stack(buf, true)
-	if os.Getenv("C17_STACKS") == "" {
-		n = 0
-	}
+	msg := fmt.Sprintf("[%s] %s", y.where, fmt.Sprintf(format, a...))
 	if os.Getenv("C17_STACKS") != "" {
-		y.t.Close() // flush what was recorded so far (diagnostics)
+		buf := make([]byte, 1<<16)
+		n := runtime.Stack(buf, true)
+		fmt.Fprintf(os.Stderr, "STUCK %s\n%s\n", msg, buf[:n])
 	}
-	rt.Fatalf("c17: [%s] %s\n%s", y.where, fmt.Sprintf(format, a...), buf[:n])
+	panic(stuck(msg))
 }
 
 // within runs f in a goroutine and fails the harness if it does not return in time
